@@ -74,7 +74,8 @@ def build_types(case):
     for i, d in enumerate(case["types"]):
         bases = tuple(ts[j] for j in d["bases"]) or (object,)
         meta = abc.ABCMeta if d.get("abc") else type
-        ts.append(meta("T%d" % i, bases, {}))
+        # every class lives in its own (fictitious) module; a case may give several classes the SAME __name__
+        ts.append(meta(d.get("name", "T%d" % i), bases, {"__module__": "verif_c17_module_%d" % i}))
     for a, b in case.get("regs", []):
         ts[a].register(ts[b])
     return ts
@@ -96,11 +97,21 @@ def run_case(case):
     except (TypeError, RuntimeError, AttributeError):
         return {"ok": False}
     n = len(ts)
-    sub = [[1 if issubclass(ts[a], ts[b]) else 0 for b in range(n)] for a in range(n)]
-    mro = [[ts.index(c) for c in inspect.getmro(t) if c in ts] for t in ts]
+
+    def tables():
+        return ([[1 if issubclass(ts[a], ts[b]) else 0 for b in range(n)] for a in range(n)],
+                [[ts.index(c) for c in inspect.getmro(t) if c in ts] for t in ts])
+
+    sub, mro = tables()
     m = AdaptationManager()
-    for oid, (f, t, fac) in enumerate(case["offers"]):
-        m.register_offer(AdaptationOffer(factory=make_factory(oid, fac), from_protocol=ts[f], to_protocol=ts[t]))
+    noffers = [0]
+
+    def add_offer(f, t, fac):
+        m.register_offer(AdaptationOffer(factory=make_factory(noffers[0], fac), from_protocol=ts[f], to_protocol=ts[t]))
+        noffers[0] += 1
+
+    for f, t, fac in case["offers"]:
+        add_offer(f, t, fac)
     set_global_adaptation_manager(m)
     holders = {}
 
@@ -121,7 +132,20 @@ def run_case(case):
         return holders[tgt]()
 
     obs = []
-    for src, tgt, flag, api in case["ops"]:
+    for op in case["ops"]:
+        if op[0] == "register":          # history: ABCMeta.register between queries
+            try:
+                ts[op[1]].register(ts[op[2]])
+                s2, m2 = tables()
+                obs.append({"k": "mut", "sub": s2, "mro": m2})
+            except (TypeError, RuntimeError, AttributeError):
+                obs.append({"k": "mutfail"})
+            continue
+        if op[0] == "offer":             # history: register_offer between queries
+            add_offer(op[1], op[2], op[3])
+            obs.append({"k": "mut"})
+            continue
+        src, tgt, flag, api = op
         obj = ts[src]()
         obj.flag = bool(flag)
         signal.setitimer(signal.ITIMER_VIRTUAL, QUERY_LIMIT_S if TIMEOUTS[0] < 2 else 0.25)   # CPU time: immune to machine load
